@@ -102,8 +102,10 @@ func (r *runner) digest() (outcome string, granted []string) {
 		case "lock.cancelled":
 			outcome = "cancelled"
 		}
+		if e.Seq > r.lastSeq {
+			r.lastSeq = e.Seq
+		}
 	}
-	r.lastSeq = r.s.LastSeq()
 	return
 }
 
